@@ -434,11 +434,34 @@ def check_ns(c, st):
     wsock = ScriptedSocket([], clock, c['send_script'])
     w = su.NetstringSocket(wsock, maxsize=c.get('maxsize', 32768))
     inst_max = c.get('reader_maxsize', c.get('maxsize', 32768))
+    if c.get('big_payloads'):
+        # payloads of kilobytes, stored as (length, seed byte)
+        payloads = [bytes((i * 7 + sd) % 251 for i in range(n)) for n, sd in c['big_payloads']]
+        st.count('netstring_cases_with_big_payloads')
+    real_time = su.time
+    su.time = clock
+    ACTIVE_CLOCK[0] = clock
     try:
+        w.settimeout(0.5)
         for p in payloads:
-            w.write_ns(p)
+            try:
+                w.write_ns(p)
+            except su.Timeout:
+                # the transport stalled part-way through a frame: the writer flushes later, nothing may be lost
+                if 'timeout' not in [x for x in c['send_script'] if isinstance(x, str)]:
+                    return ('netstring-write-raised:Timeout', 'write_ns timed out without a stalled transport (case %r)' % (repr(c)[:400],))
+                st.count('netstring_writes_timed_out')
+        for _ in range(len(c['send_script']) + 3):
+            try:
+                w.bsock.flush()
+                break
+            except su.Timeout:
+                continue
     except Exception as e:
-        return ('netstring-write-raised:%s' % type(e).__name__, 'write_ns raised %r (case %r)' % (e, c))
+        return ('netstring-write-raised:%s' % type(e).__name__, 'write_ns raised %r (case %r)' % (e, repr(c)[:400]))
+    finally:
+        su.time = real_time
+        ACTIVE_CLOCK[0] = None
     wire = bytes(wsock.peer)
     script, pos = [], 0
     for n in c['chunks']:
@@ -653,8 +676,16 @@ def gen(r):
     if r.random() < 0.25:
         # the reader object was made with a small limit; every read_ns() call passes the real one
         extra['reader_maxsize'] = r.choice([1, 5, 9, 10, 99, max(1, maxsize // 10 - 1)])
+    if r.random() < 0.12:
+        # frames of 8 KB - 200 KB written through a transport that takes them in pieces and stalls now and then
+        big = [[r.choice([8191, 8192, 8193, 20000, 65536, 200000]), r.randrange(250)] for _ in range(r.randint(1, 3))]
+        ss = [r.choice([1, 3, 5, 4096, 8192, 30000, 'timeout', 'timeout']) for _ in range(r.randint(2, 14))]
+        return {'kind': 'ns', 'payloads': [], 'big_payloads': big, 'maxsize': 10 ** 6, 'explicit_maxsize': False, 'setmaxsize': False,
+                'send_script': ss, 'chunks': [r.choice([1000, 4096, 65536, 7]) for _ in range(400)], 'recvsize': r.choice([4096, 32768, 100])}
+    if r.random() < 0.3:
+        extra['ns_stalls'] = True
     return {**extra, 'kind': 'ns', 'payloads': payloads, 'maxsize': maxsize, 'explicit_maxsize': r.random() < 0.3,
-            'setmaxsize': r.random() < 0.2, 'send_script': [r.choice([1, 3, 7, 1000]) for _ in range(r.randint(0, 10))],
+            'setmaxsize': r.random() < 0.2, 'send_script': [r.choice([1, 3, 7, 1000] + (['timeout'] if extra.get('ns_stalls') else [])) for _ in range(r.randint(0, 10))],
             'chunks': [r.choice([1, 1, 2, 3, 5, 30, 1000]) for _ in range(400)], 'recvsize': r.choice([1, 2, 5, 4096, 32768])}
 
 
